@@ -276,7 +276,7 @@ def c03(ctx):
                        "item-typed cells, two independent and two chained cells); TLC explores ALL input histories (closure of ChangeInput "
                        "over the trimmed domain) of Circuit(BP) x abstract gated cell and compares every reader at every settled state: "
                        "0 before the first enabled write, follows v while c > 0, holds afterwards whatever v does")
-    mem_check(ctx, ("cell", "shared", "readers", "two", "cells", "samee", "early"), "C03_value", 36)
+    mem_check(ctx, ("cell", "shared", "readers", "two", "cells", "samee", "early", "foreign"), "C03_value", 39)
 
 
 @prop("C04")
@@ -461,7 +461,23 @@ def c12(ctx):
             it["cins"] = p["cins"]
             it["bps"] = [prep_bp(rs[""]["bp"], extra=items), prep_bp(rs["#twin"]["bp"], extra=items)]
         return it
-    run_refine(ctx, sel, {"DomCap": 700}, item_fn=item, variants=[("", {}), ("#twin", {"__twin": True})], batch_size=20)
+    for p in sel:
+        p.setdefault("job", {}).update({"trace": True, "tracedir": ctx.wd})
+    run_refine(ctx, sel, {"DomCap": 700}, item_fn=item, variants=[("", {}), ("#twin", {"__twin": True})], batch_size=20, keep_results=True)
+    colour_checks(ctx, sel, quick_n=6000)
+
+
+def colour_checks(ctx, progs, quick_n):
+    """The wire-colour design model (DESIGN 14.9): exhaustive model check, recorded planner calls of this run's compilations
+    judged by TraceColour (code -> spec), TLC-enumerated planner inputs through the real function (spec -> code)."""
+    import colour
+    if ctx.tier == "quick":
+        design_mc(ctx, "MC_Colour", "MC_Colour.cfg", workers=6)
+    else:
+        design_mc(ctx, "MC_Colour", "MC_Colour_deep.cfg", workers=12, timeout=3000, coverage=False, xmx="8g")
+        design_mc(ctx, "MC_Colour", "MC_Colour_locks.cfg", workers=12, timeout=3000, coverage=False, xmx="8g")
+    colour.validate_events(ctx, ctx.results, progs)
+    colour.validate_instances(ctx, quick_n=quick_n if ctx.tier == "quick" else None)
 
 
 def run_cli(entry, args, cwd, timeout=240, hashseed="0", trace=None):
@@ -1074,15 +1090,15 @@ def c07(ctx):
     run_refine(ctx, rprogs, {"DomCap": 30 if quick else 100}, item_fn=item, batch_size=10, precompiled=compiled)
 
 
-def design_mc(ctx, module, cfg):
+def design_mc(ctx, module, cfg, workers=4, timeout=900, coverage=True, xmx="3g"):
     """Exhaustive small-instance check of a design model (tla/MC_*.tla); its states count as model-checking evidence."""
     import shutil
     from common import TLA_LIB, run_tlc, tlc_errors, tlc_stats
-    d = os.path.join(ctx.wd, "mc-" + module)
+    d = os.path.join(ctx.wd, "mc-" + module + "-" + cfg.replace(".cfg", ""))
     os.makedirs(d, exist_ok=True)
     for f in (module + ".tla", cfg):
         shutil.copy(os.path.join(TLA_LIB[0], f), d)
-    code, out, wall = run_tlc(d, module, cfg=cfg, workers=4, timeout=900, coverage=True)
+    code, out, wall = run_tlc(d, module, cfg=cfg, workers=workers, timeout=timeout, coverage=coverage, xmx=xmx)
     if code != 0 or tlc_errors(out):
         if "is violated" in out:
             ctx.violation("design-" + module, "design_invariant", out[out.index("Error:"):][:1500], {"src": None, "item": {}, "module": module})
@@ -1091,7 +1107,7 @@ def design_mc(ctx, module, cfg):
     st, tr = tlc_stats(out)
     ctx.add("states", st)
     ctx.add("transitions", tr)
-    ctx.cov.setdefault("design_models", {})[module] = {"distinct_states": st, "states_generated": tr}
+    ctx.cov.setdefault("design_models", {})[module + ":" + cfg] = {"distinct_states": st, "states_generated": tr, "seconds": round(wall, 1)}
 
 
 @prop("C13")
@@ -1269,6 +1285,10 @@ def replay(ctx, path):
     with open(path) as fh:
         rp = json.load(fh)
     pl = rp["payload"]
+    if pl.get("kind") in ("colour", "colour-instance"):
+        import colour
+        rp["path"] = path
+        return colour.replay_colour(ctx, rp)
     p = {"id": rp["record"], "src": pl["src"], "src2": pl.get("src2"), "job": pl.get("job", {})}
     variants = [tuple(v) for v in pl.get("variants") or [("", {})]]
     compiled = compile_records(ctx, [p], pl.get("opts"), variants)
